@@ -31,16 +31,16 @@ T = {
  "C07": dict(tech="TLA+ API machine: promise substitution at verification, TLC-enumerated, replayed",
              text="Per position of an aggregate every promise class is substituted at verification time; the spec predicts acceptance only for value-wise equal vectors and refusal of promises not fitting the bit length; replayed on both groups.",
              ref="§6 C07"),
- "C08": dict(tech="TLC adversary game over formal weights (MC_Weights) and weight-seed binding (MC_Transcript); TLC trace validation of weight provenance and homogeneity in 252-bit arithmetic (TraceVerify), response-perturbation pairs",
+ "C08": dict(tech="TLC adversary game over formal weights (MC_Weights) and weight-seed binding (MC_Transcript); TLC trace validation of weight provenance and homogeneity in 252-bit arithmetic (TraceVerify) incl. two-chunk batches of 258 distinct proofs split per chunk (WeightsOnly), response-perturbation pairs",
              text="(MC) an adaptive-adversary game with weights as formal indeterminates: no cancellation under the code's policy, attacks found for 'blind to a response' and 'constant' policies; the weight seed contains r1, s1 and every d1. (TV) on recorded multi-member batches TLC checks: member i's contribution to the weight transcript is an output of a generator built on i's transcript after all its responses were absorbed, the weight generator is built after every member contributed, w_i (defined as minus the scalar on B_i) is non-zero, is the reduction of a weight-generator output, distinct per member, and multiplies every scalar of proof i. Changing any response scalar changes the contribution and every weight.",
              ref="§6 C08"),
  "C09": dict(tech="TLA+ API machine mask-result pattern (MaskOf) checked by TLC; behaviours replayed with exact mask comparison (also beyond the chunk limit); TLC trace validation: seed nonces at (label, j, k) in the prover, recovery equation in the verifier (BigField)",
              text="Seeds x modes x batch compositions; the predicted per-member result (none / exact mask) is compared with the library's output component-wise.",
              ref="§6 C09"),
- "C10": dict(tech="TLA+ API machine: verdict independent of seed and mode, RecoverOnly masks; TLC-enumerated, replayed; TLC trace validation of the recovery equation under wrong seeds and in RecoverOnly",
+ "C10": dict(tech="TLA+ API machine: verdict independent of seed and mode, RecoverOnly masks; TLC-enumerated, replayed; TLC trace validation of the recovery equation under wrong seeds and in RecoverOnly; long (21-40 member) and 256-scale batches",
              text="valid and invalid proofs x {no seed, right seed, wrong seed} x three modes; predicted verdicts and mask classes (exact / other / none) compared on both groups.",
              ref="§6 C10"),
- "C15": dict(tech="TLA+ step-wise decoder == closed-form acceptance set, checked by TLC over (length, first byte, non-canonical chunk) and by Apalache with the length symbolic (every length); every TLC state executed on from_bytes/serde (slice and stream); prover outputs round-tripped",
+ "C15": dict(tech="TLA+ step-wise decoder == closed-form acceptance set, checked by TLC over (length, first byte, non-canonical chunk) and by Apalache with the length symbolic (every length); every TLC state executed on from_bytes/serde (slice and stream); prover outputs round-tripped; limb-wise model of scalar canonicity (MC_Scalar) executed value by value",
              text="The decoder is a pc-machine shaped like the code (first byte, chunks_exact, d1 x tag, points, r1/s1, pairs, non-empty, leftovers); TLC proves acceptance <=> the closed form of C15 over every (total length 0..642, first byte class, which chunk is non-canonical) and prints each state; the harness builds concrete bytes for each (canonical random scalars, four kinds of non-canonical encodings) and checks from_bytes, re-encoding equality, the bincode form and getters. Prover outputs over the configuration lattice are checked for the length formula and decode(encode(p)) = p; the n*m = 1 failure is the recorded finding.",
              ref="§6 C15"),
  "C16": dict(tech="TLA+ totality of decoder and API machine (TLC), TLC-enumerated hostile shapes replayed under catch_unwind in release (overflow checks on) and dev profiles, random strings of every length",
@@ -49,16 +49,16 @@ T = {
  "C17": dict(tech="TLA+ constructor guards as coded == documented domains (MC_Constructors, TLC), exhaustive execution of every state on the real constructors",
              text="bit length x capacity in 0..130, commitment count 0..17 x promise count x seed x capacity, all opening shapes with blinding counts 0..8 (<= 4 openings), mask and commit lengths 0..8 x degree, every u8 and a usize set incl. 2^32 +- 1 and usize::MAX: each is one TLC state with the predicted Ok/Err; the harness calls the constructor and compares outcome and getter values (no silent adjustment) on both groups.",
              ref="§6 C17"),
- "C18": dict(tech="TLC: once-cell model over all interleavings with liveness (MC_Once), pure-call history model (MC_Histories) with negatives; TLC-generated histories executed on real threads with forced hand-off; races in fresh processes validated by TLC (TraceThreads)",
+ "C18": dict(tech="TLC: once-cell model over all interleavings with liveness (MC_Once), pure-call history model (MC_Histories) with negatives; TLC-generated histories executed on real threads with forced hand-off; races in fresh processes validated by TLC (TraceThreads); 18-call menu incl. a volume call, a long proof and a doubly inconsistent batch",
              text="(MC) two dependent once-cells x 3 threads, all interleavings: single initialisation, readers see the complete value, no stuck state, termination under fairness; check-then-act initialisation is caught. Call histories over a 10-call menu (parameter sets sharing bit length or capacity, proofs with fixed RNG streams, verifications, generator accessors, a shared parameter object) are enumerated by TLC and executed with the same hand-off order on real threads; free-running threads behind a barrier in fresh processes race the first use of the statics. TLC validates every recorded return against the reference digest of the same call run alone in a fresh single-threaded process. Real schedules are sampled, not enumerated.",
              ref="§6 C18"),
  "C19": dict(tech="TLC-checked transcript script, nonce-key layout and generator naming (Transcript.tla, MC_Nonce, MC_Generators) used in STRICT mode trace validation of the library's prover and verifier; golden vectors from the pinned release",
              text="(a) 132 vectors recorded from the pinned 0.4.0 tree (7 bit lengths x 5 aggregation/capacity pairs x 4 degrees, seeded and unseeded, promises) must decode, verify (also under a different capacity) and yield the recorded masks. (b) strict-mode trace validation: every transcript operation of recorded prover and verifier runs must equal Transcript!Script (label byte strings, lengths, order, RNG rekey label, weight-transcript label), the table layout must be the interleaved one, the seed-derived nonces found in the proof points must equal the reference derivation whose key layout is printed by TLC from MC_Nonce, and generators must equal the derivation script printed from MC_Generators - a consistent prover+verifier change (renamed label, reordered absorption, different nonce index, different generator label) deviates from the specification even though prove-then-verify still passes. (c) the prover/verifier algebra in those traces is the published protocol (BPS2/BPVSteps == BPV!RefForm by T0-T2), i.e. the specification itself is the independent straight-from-the-paper implementation and the library's proofs are checked against it element by element.",
              ref="§6 C19"),
- "C20": dict(tech="TLC: heap-block lifecycle model (Memory.tla) with a seeded unwiped-copy negative; tracing global allocator records every release during secret-handling scenarios in dev and release profiles; TLC validates the trace (TraceMemory)",
+ "C20": dict(tech="TLC: heap-block lifecycle model (Memory.tla) with a seeded unwiped-copy negative; tracing global allocator records every release during secret-handling scenarios in dev and release profiles; TLC validates the trace (TraceMemory), incl. a worker thread's whole life and a 258-member mixed batch",
              text="A tracing global allocator scans every block released (dealloc/realloc) while the library handles secrets - drops of opening/witness/mask, seeded and unseeded prove, verify with recovery, recover-only, a prover error path - for the byte patterns of the seed, every blinding factor and 64-bit value; TLC accepts the trace only if no release carries a secret and the inline statement seed is gone after drop. Degrees 1..6, aggregation 1..4, 8- and 64-bit. Only heap blocks released during the scenarios are covered (not stack or registers).",
              ref="§6 C20"),
- "C13": dict(tech="TLC term model (freshness, generator sees whole transcript); TLC trace validation of the prover in 252-bit arithmetic with nonces read off the proof points (TraceProve)",
+ "C13": dict(tech="TLC term model (freshness, generator sees whole transcript); TLC trace validation of the prover in 252-bit arithmetic with nonces read off the proof points (TraceProve), and nonces-only validation of long proofs (bits*aggregation up to 4096)",
              text="The prover runs over the free-module group, so alpha_k, dL/dR, d, eta are coordinates of A, L_j/R_j, A1, B and r, s follow from r1, s1; TLC checks they are non-zero, pairwise distinct, each the reduction of an output of a generator built after the latest absorption preceding its use (unseeded) or exactly the reference seed derivation at (label, j, k) (seeded; r and s still from the generator), and that different runs share none - for all degrees 1..6.",
              ref="§6 C13"),
  "C14": dict(tech="TLC term model under RNG fault models (negatives: no witness rekey, no rebuild); TLC trace validation of generator keying and of run pairs under faulty external RNGs (TraceProve CrossFresh)",
@@ -67,7 +67,7 @@ T = {
  "C11": dict(tech="TLC: naming/layout model of the generators (MC_Generators: injectivity, interleaved positions, capacity independence) that prints the derivation script; the harness executes the script with SHAKE256/SHA3-512 against the library for every (bits, capacity); TLC trace validation of table layout",
              text="TLC checks that the naming function (prefix || kind || LE32(party), block index) is injective over 2*32*64 names and disjoint from the six blinding labels, that table positions interleave G and H bijectively, and capacity independence; it prints the byte strings of the derivation, which the harness executes independently and compares with every generator of every (bits in 1..64, capacity in 1..32) parameter set on Ristretto and the free-module group: equality with the documented derivation, pairwise distinct non-identity encodings (4096 + 7), compressed accessors = encodings, precomputed table == interleaved generators (random and unit vectors through the table vs plain MSM), concurrent construction on threads; static scalar positions in recorded prover/verifier MSMs are validated against the layout.",
              ref="§6 C11"),
- "C12": dict(tech="TLA+ API machine: capacity irrelevant to validity; all capacity pairs and mixed-capacity batches replayed",
+ "C12": dict(tech="TLA+ API machine: capacity irrelevant to validity; all capacity pairs and mixed-capacity batches replayed, also beyond the chunk limit",
              text="All pairs (prover capacity, verifier capacity) >= m up to 32 and mixed-capacity batches are behaviours of the spec predicted to accept; replayed on both groups.",
              ref="§6 C12"),
 }
